@@ -1233,6 +1233,8 @@ struct ical_parser_s {
 	/* what esccpy() is in the middle of when a buffer ends,
 	 * '\\' for an escape sequence, '\n' for a (possibly) folded line */
 	char pend;
+	/* set while we're inside a line that is too long for the stash */
+	bool drop;
 };
 
 #define ICAL_EOP	((struct ical_vevent_s*)0x1U)
@@ -1295,7 +1297,7 @@ esccpy(char *restrict tgt, size_t tz, const char *src, size_t sz, char *pend)
 		/* not sure what to do with long lines */
 		if (UNLIKELY(ti >= tz)) {
 			/* ignore them */
-			return 0U;
+			return (size_t)-1;
 		}
 	}
 	tgt[ti] = '\0';
@@ -1550,7 +1552,15 @@ _ical_pull(struct ical_parser_s p[static 1U])
 	 * we might have put a multiline there and only now it
 	 * becomes apparent that it's indeed a valid line when
 	 * examinging the new bytes in the parser buffer */
-	if (p->six && p->stash[p->six] == '\001') {
+	if (UNLIKELY(p->drop)) {
+		/* we're dropping a line that was too long, it is over when
+		 * the last buffer ended in a line feed and this one doesn't
+		 * continue it */
+		if (p->pend == '\n' && BZ && *BP != ' ' && *BP != '\t') {
+			p->drop = false;
+			p->pend = '\0';
+		}
+	} else if (p->six && p->stash[p->six] == '\001') {
 		/* go back to 0 termination */
 		p->stash[p->six] = '\0';
 		/* now check if the stuff in the buffer happens
@@ -1567,19 +1577,22 @@ chop_more:
 	for (const char *tmp = BP, *const ep = BP + BZ;
 	     (eol = memchr(tmp, '\n', ep - tmp)) != NULL &&
 		     ++eol < ep && (*eol == ' ' || *eol == '\t'); tmp = eol);
-	if (UNLIKELY((eol == NULL || eol >= BP + BZ) &&
-		     BZ >= sizeof(p->stash) - p->six)) {
-		/* we must have stopped mid-stream at the end of the buffer
-		 * however, our stash space is too small to hold the contents
-		 * we'll just fuck off and hope nobody will notice */
-		p->six = 0U;
-	} else if (UNLIKELY(eol == NULL || eol >= BP + BZ)) {
+	if (UNLIKELY(eol == NULL || eol >= BP + BZ)) {
 		/* copy what we've got to the stash for small buffers */
 		char *restrict sp = p->stash + p->six;
 		size_t sz = sizeof(p->stash) - p->six;
+		size_t n;
 
-		p->six += esccpy(sp, sz, BP, BZ, &p->pend);
-		if (eol != NULL) {
+		if (UNLIKELY(p->drop ||
+			     (n = esccpy(sp, sz, BP, BZ, &p->pend)) == (size_t)-1)) {
+			/* we must have stopped mid-stream at the end of the
+			 * buffer, however, our stash space is too small to
+			 * hold the line, drop all of it, however it arrives */
+			p->six = 0U;
+			p->drop = true;
+			p->pend = (char)(BZ && BP[BZ - 1U] == '\n' ? '\n' : '\0');
+			p->stash[0U] = '\0';
+		} else if (p->six += n, eol != NULL) {
 			/* means at least we've seen a \n up there
 			 * leave a mark in the stash buffer so the
 			 * pre-examination in the next iteration can
@@ -1596,8 +1609,19 @@ chop_more:
 		/* ... pretend we've consumed it all */
 		BI += llen;
 
+		if (UNLIKELY(p->drop)) {
+			/* that's the rest of a line that was too long */
+			p->drop = false;
+			p->pend = '\0';
+			goto chop_more;
+		}
 		/* copy to stash and unescape */
 		slen = esccpy(sp, slen, bp, llen, &p->pend);
+		if (UNLIKELY(slen == (size_t)-1)) {
+			/* too long, forget about this line */
+			p->six = 0U;
+			goto chop_more;
+		}
 		/* store new stash pointer */
 		p->six += slen;
 
